@@ -63,6 +63,7 @@ class GhostEvaluator:
 
     def __init__(self, vc, kind, L):
         self.vc, self.kind, self.L = vc, kind, L
+        self.period = vc.fresh_int("evaluator_period", 1)      # the evaluator has its own period, unrelated to the stopper's
         self.vals = z3.Array("m_%d" % id(self), z3.IntSort(), z3.RealSort())
         self.vars_ = z3.Array("var_%d" % id(self), z3.IntSort(), z3.RealSort())
         self.reads = []
